@@ -15,6 +15,7 @@ from .. import encode, genpel, pelrun, tlc
 ID = 'C03'
 LEVEL = 'model_checking'
 TRACE = 'trace/Trace_Pel'
+PROCESS_EVERY = 4         # every fourth case decodes through the real tool as a real process (seams.PROC_VARIANTS)
 RULE = ('case = one well-formed PEL with 1-3 SRC sections composed from TLC-enumerated callout shapes (all 960 shapes '
         'are used), all SRC types / word counts / flag bits, with and without a message registry; non-trivial = '
         'the SRC has at least one callout or a registry message; distinct = by bytes')
